@@ -313,6 +313,7 @@ type pfEngine struct {
 	newIntOK  map[string]bool        // accepted dynamic types of ber.NewInteger
 	berTypes  map[int64]string       // universal primitive tag -> dynamic type of Packet.Value after ber.readPacket
 	depth     int
+	paramNil  map[*ssa.Parameter]bool // memo of paramMayBeNil
 }
 
 // pfSummary: facts guaranteed when the function returns a nil error (or, for
@@ -322,6 +323,7 @@ type pfSummary struct {
 	facts         *pfState
 	resNonNil     map[int]bool
 	resMayBeNil   map[int]bool // result i can be nil together with a nil error
+	resNilOnErr   map[int]bool // result i is nil on some return that reports an error
 	hasErr        bool
 	paramNames    []string
 	unconditional bool
@@ -1008,6 +1010,17 @@ func (r *pfRun) applyCond(st *pfState, cond ssa.Value, truth bool) bool {
 			if ex, ok := an.Strip(y).(*ssa.Extract); ok {
 				if call, ok := ex.Tuple.(*ssa.Call); ok && isErrorType(ex.Type()) && isNilNow {
 					r.applySummary(st, call)
+					// a library call (ber.ReadPacket, x509 / tls constructors): the contract "a nil error comes with a usable
+					// value" is trusted, as everywhere else in E2 (such values are never nullable by design)
+					if f := call.Common().StaticCallee(); f == nil && call.Common().IsInvoke() || f != nil && !an.InModule(f) {
+						if refs := call.Referrers(); refs != nil {
+							for _, ref := range *refs {
+								if sib, isEx := ref.(*ssa.Extract); isEx && sib != ex && isNilable(sib.Type()) {
+									st.nonNil[r.key(sib)] = true
+								}
+							}
+						}
+					}
 				}
 			} else if call, ok := an.Strip(y).(*ssa.Call); ok && isErrorType(call.Type()) && isNilNow {
 				r.applySummary(st, call)
@@ -1398,7 +1411,10 @@ func (r *pfRun) valueNonNil(v ssa.Value, st *pfState) bool {
 	if _, ok := v.(*ssa.MakeInterface); ok {
 		return true
 	}
-	return st.nonNil[r.key(v)]
+	if st.nonNil[r.key(v)] {
+		return true
+	}
+	return false
 }
 
 // doCallKills removes facts invalidated by what the callee may store.
@@ -1637,7 +1653,7 @@ func (e *pfEngine) summary(f *ssa.Function, ctx *optCtx) *pfSummary {
 	check := ctx != nil && ctx.known // sites inside option-taking callees are checked per context
 	run := e.analyse(f, ctx, nil, check)
 	ei := errResultIndex(f)
-	sum := &pfSummary{hasErr: ei >= 0, resNonNil: map[int]bool{}, resMayBeNil: map[int]bool{}}
+	sum := &pfSummary{hasErr: ei >= 0, resNonNil: map[int]bool{}, resMayBeNil: map[int]bool{}, resNilOnErr: map[int]bool{}}
 	var acc *pfState
 	first := true
 	nres := f.Signature.Results().Len()
@@ -1652,6 +1668,11 @@ func (e *pfEngine) summary(f *ssa.Function, ctx *optCtx) *pfSummary {
 		}
 		res := an.ReturnResults(ret)
 		if ei >= 0 && !an.IsNilConst(an.Strip(res[ei])) {
+			for i := 0; i < nres; i++ {
+				if i != ei && isNilable(f.Signature.Results().At(i).Type()) && an.IsNilConst(an.Strip(res[i])) {
+					sum.resNilOnErr[i] = true
+				}
+			}
 			continue
 		}
 		if first {
@@ -2214,6 +2235,11 @@ func (r *pfRun) checkDeref(in ssa.Instruction, addr ssa.Value, st *pfState) {
 	}
 	k := e.key(addr)
 	if isNil, known := r.knownNil(addr); known {
+		if isNil && r.valueNonNil(addr, st) {
+			// not set by the caller, but the function itself filled in a default on this path
+			e.site(r.fn, in, "nilderef", k, true, "non-nil on every path (nil test or definite assignment)", r.ctx)
+			return
+		}
 		if isNil {
 			e.site(r.fn, in, "nilderef", k, false, "dereference of an option that is not set in this call context", r.ctx)
 		} else {
@@ -2295,6 +2321,57 @@ func (r *pfRun) checkCall(ci ssa.CallInstruction, st *pfState) {
 	}
 }
 
+// computeParamNil fills e.paramNil: a pointer parameter of an unexported,
+// non-closure module function is "nullable by design" when some call site in
+// the analysed slice hands it a value that is itself nullable by design and not
+// known to be non-nil at that site (e.g. the packet a failed read returned
+// together with its error). Least fixpoint over the slice; the summaries and
+// sites computed on the way are discarded, the real analysis starts afresh.
+func (e *pfEngine) computeParamNil(fns []*ssa.Function) {
+	e.paramNil = map[*ssa.Parameter]bool{}
+	for iter := 0; iter < 6; iter++ {
+		changed := false
+		for _, g := range fns {
+			if len(g.Blocks) == 0 {
+				continue
+			}
+			var run *pfRun
+			for _, ci := range an.Calls(g) {
+				f := an.StaticCallee(ci.Common())
+				if f == nil || !an.InModule(f) || f.Parent() != nil || len(f.Blocks) == 0 || e.exported[f] {
+					continue
+				}
+				for i, a := range ci.Common().Args {
+					if i >= len(f.Params) || !isNilable(a.Type()) || e.paramNil[f.Params[i]] {
+						continue
+					}
+					if _, isPtr := a.Type().Underlying().(*types.Pointer); !isPtr {
+						continue
+					}
+					if run == nil {
+						run = e.analyse(g, nil, nil, false)
+					}
+					if !run.nullableByDesign(a) {
+						continue
+					}
+					st := run.stateAt(ci)
+					if st == nil || st.dead || run.valueNonNil(a, st) {
+						continue
+					}
+					e.paramNil[f.Params[i]] = true
+					changed = true
+				}
+			}
+		}
+		if !changed {
+			break
+		}
+	}
+	e.summaries = map[string]*pfSummary{}
+	e.sites = map[string]*pfSite{}
+	e.order = nil
+}
+
 // nullableByDesign: v's origin is one the code itself makes nil sometimes.
 func (r *pfRun) nullableByDesign(v ssa.Value) bool {
 	sv := an.Strip(v)
@@ -2310,12 +2387,17 @@ func (r *pfRun) nullableByDesign(v ssa.Value) bool {
 	case *ssa.Extract:
 		if call, ok := x.Tuple.(*ssa.Call); ok {
 			if f := call.Common().StaticCallee(); f != nil && an.InModule(f) {
-				if sum := r.e.summary(f, nil); sum != nil && sum.resMayBeNil[x.Index] {
+				if sum := r.e.summary(f, nil); sum != nil && (sum.resMayBeNil[x.Index] || sum.resNilOnErr[x.Index] && call.Parent() == r.fn) {
+					// (a result that is nil only together with an error is followed within the function that made the
+					// call, where the error test is visible; not into closures)
 					return true
 				}
 			}
 		}
 	case *ssa.Parameter:
+		if !r.e.exported[r.fn] && r.e.paramNil[x] {
+			return true
+		}
 		if r.e.exported[r.fn] {
 			// caller-controlled argument of an exported entry (not the receiver)
 			if r.fn.Signature.Recv() != nil && len(r.fn.Params) > 0 && x == r.fn.Params[0] {
